@@ -1,11 +1,34 @@
 (* C19 — evaluator for generated case files.  [spec_b] judges the implementation's observed output
    (proofs/C19_spec.v: it reflects the Prop-level statement), [model_b] compares it with the
-   executable model; [check_case] evaluates both with HMAC digests computed once per case
+   executable model (for the cases observed at the wire the search for the secrets in the parts of the
+   outgoing requests is done here); [check_case] evaluates both with HMAC digests computed once per case
    (proofs/C19_spec.v: check_case_eq) and sets the known-finding bits for F6b. *)
 From Coq Require Import NArith List Ascii String Bool.
 From AV Require Import lib.Str lib.Sha1 lib.TokSplit model.C19_model.
 Import ListNotations.
 Local Open Scope string_scope.
+
+(* ---------- what leaves: the parts of an outgoing request ----------
+   every part is a place (Authorization header, query string, body, Cookie header, anything else: other
+   headers, method, host, path) with one reading of the text found there (as it is, URL-unescaped,
+   base64-decoded) *)
+Inductive loc := LAuth | LQuery | LBody | LCookie | LOther.
+Definition part := (loc * string)%type.
+(* a request sent to a remote cluster: the cluster, the Authorization header, the parts *)
+Definition sent_req := (string * string * list part)%type.
+Definition loc_eqb (a b : loc) : bool :=
+  match a, b with
+  | LAuth, LAuth | LQuery, LQuery | LBody, LBody | LCookie, LCookie | LOther, LOther => true
+  | _, _ => false
+  end.
+Definition occurs_in (secrets : list string) (text : string) : bool := existsb (fun s => contains s text) secrets.
+(* a secret occurs in a part at place l *)
+Definition found (l : loc) (secrets : list string) (wire : list part) : bool :=
+  existsb (fun p => loc_eqb (fst p) l && occurs_in secrets (snd p)) wire.
+(* no secret occurs anywhere *)
+Definition clean_b (secrets : list string) (wire : list part) : bool :=
+  forallb (fun p => negb (occurs_in secrets (snd p))) wire.
+Definition all_parts (sent : list sent_req) : list part := flat_map (fun q => snd q) sent.
 
 Inductive case :=
 (* auth.SaltToken(token, remote) *)
@@ -14,13 +37,27 @@ Inductive case :=
 | CProv (remote : string) (creds : option (list string)) (local : list (string * aca_result)) (o : option (list string))
 (* keepstore remoteProxy.remoteClient(remote, _, token): the ApiToken of the returned client, or error *)
 | CRemote (token remote : string) (o : option string)
-(* Handler.saltAuthToken(req, remote) with the database unreachable.  secrets: the unsalted v2 secrets
-   carried by req (each longer than 40 characters and unique to this case); observed: error?, the
-   outgoing Authorization header, the outgoing query (sorted by key), and where a secret was found in
-   the outgoing request: Authorization header / query / body / Cookie header / anywhere else *)
-| CLegacy (r : lreq) (remote : string) (secrets : list string)
-          (o_err : bool) (o_auth : string) (o_query : list (string * string))
-          (in_auth in_query in_body in_cookie in_other : bool).
+(* Handler.remoteClusterRequest(remote, req) with a recording HTTP client.  dbt: what the database knows
+   (None: unreachable; Some table: token -> answer of validateAPItoken, tokens not listed are not found);
+   secrets: the unsalted v2 secrets carried by req and the legacy tokens of req that the database knows as
+   tokens of local users (each longer than 40 characters and unique to this case); observed: error?, and of
+   the one request put on the wire: the Authorization header, the query (sorted by key), and its parts *)
+| CLegacy (r : lreq) (remote : string) (dbt : option (list (string * db_result))) (secrets : list string)
+          (o_err : bool) (o_auth : string) (o_query : list (string * string)) (wire : list part)
+(* the same kind of request through the whole legacy stack (setupProxyRemoteCluster: by uuid, by cluster_id,
+   multi-cluster uuid query, collection by PDH, container request for another cluster): every request sent to
+   a remote cluster.  For a container request the secrets are those of tokens issued by this cluster *)
+| CStack (r : lreq) (dbt : option (list (string * db_result))) (secrets : list string) (sent : list sent_req)
+(* federation.Conn.ContainerRequestCreate on cluster [local] with rpc remotes [remotes]: target cluster_id,
+   the caller's tokens, the provider's lookups of legacy tokens, the runtime_token attribute, what the local
+   backend says about the current token and the current user; observed: was a request sent to a remote, its
+   Authorization header, the runtime_token read back from its body, its parts *)
+| CCrc (local : string) (remotes : list string) (target : string) (creds : list string) (tab : list (string * aca_result))
+       (rt : option string) (aca : option aca_rec) (user : option string)
+       (o_sent : bool) (o_auth : string) (o_rt : option string) (wire : list part)
+(* other federation.Conn methods that reach a remote: every request sent to a remote cluster; secrets: the
+   system root token and the unsalted secrets the caller holds *)
+| CConn (creds : list string) (tab : list (string * aca_result)) (secrets : list string) (sent : list sent_req).
 
 (* ---------- boolean specification ---------- *)
 (* reading a token as the property text does *)
@@ -127,14 +164,40 @@ Definition spec_remote_k (hm : hmfun) (token remote : string) (o : option string
 (* legacy path: a forwarded request carries no unsalted secret anywhere *)
 Definition spec_legacy_b (o_err in_auth in_query in_body in_cookie in_other : bool) : bool :=
   o_err || negb (in_auth || in_query || in_body || in_cookie || in_other).
+Definition spec_wire_b (o_err : bool) (secrets : list string) (wire : list part) : bool :=
+  spec_legacy_b o_err (found LAuth secrets wire) (found LQuery secrets wire) (found LBody secrets wire)
+                (found LCookie secrets wire) (found LOther secrets wire).
+
+(* ContainerRequestCreate: the secrets of this cluster the caller holds -- of its v2 tokens issued here and of
+   the current token if it was issued here -- occur nowhere in the request sent to the remote, and a current
+   token issued here is not what is forwarded as runtime_token (unless the caller put it there itself) *)
+Definition crc_secrets (local : string) (creds : list string) (aca : option aca_rec) : list string :=
+  (flat_map (fun t => match classify t with
+                      | TV2 uuid secret => if has_prefix local uuid && Nat.ltb 40 (String.length secret) then [secret] else []
+                      | _ => []
+                      end) creds ++
+   match aca with
+   | Some (uuid, api, _) => if has_prefix local uuid && Nat.ltb 40 (String.length api) then [api] else []
+   | None => []
+   end)%list.
+Definition current_token_forwarded (local : string) (rt : option string) (aca : option aca_rec) (o_rt : option string) : bool :=
+  match rt, aca with
+  | None, Some (uuid, api, _) => has_prefix local uuid && opt_eqb o_rt (Some ("v2/" ++ uuid ++ "/" ++ api))
+  | _, _ => false
+  end.
+Definition spec_crc_b (local : string) (creds : list string) (rt : option string) (aca : option aca_rec)
+           (o_sent : bool) (o_rt : option string) (wire : list part) : bool :=
+  clean_b (crc_secrets local creds aca) wire && negb (o_sent && current_token_forwarded local rt aca o_rt).
 
 Definition spec_k (hm : hmfun) (c : case) : bool :=
   match c with
   | CSalt token remote o => spec_salt_k hm token remote o
   | CProv remote creds local o => spec_prov_k hm remote creds local o
   | CRemote token remote o => spec_remote_k hm token remote o
-  | CLegacy r remote secrets o_err o_auth o_query in_auth in_query in_body in_cookie in_other =>
-    spec_legacy_b o_err in_auth in_query in_body in_cookie in_other
+  | CLegacy r remote dbt secrets o_err o_auth o_query wire => spec_wire_b o_err secrets wire
+  | CStack r dbt secrets sent => clean_b secrets (all_parts sent)
+  | CCrc local remotes target creds tab rt aca user o_sent o_auth o_rt wire => spec_crc_b local creds rt aca o_sent o_rt wire
+  | CConn creds tab secrets sent => clean_b secrets (all_parts sent)
   end.
 
 (* ---------- known finding F6b (legacy saltAuthToken) ----------
@@ -146,13 +209,17 @@ Definition carries (secrets vals : list string) : bool :=
 Definition form_carries (r : lreq) (secrets : list string) : bool := carries secrets (values "api_token" (l_form r)).
 Definition cookie_carries (r : lreq) (secrets : list string) : bool :=
   carries secrets (match l_cookie r with Some t => [t] | None => [] end).
+Definition f6b_bits (r : lreq) (secrets : list string) (o_err : bool) (wire : list part) : N :=
+  let in_body := found LBody secrets wire in
+  let in_cookie := found LCookie secrets wire in
+  if o_err || found LAuth secrets wire || found LQuery secrets wire || found LOther secrets wire then 0%N
+  else if (negb in_body || form_carries r secrets) && (negb in_cookie || cookie_carries r secrets)
+  then ((if in_body then 4 else 0) + (if in_cookie then 8 else 0))%N
+  else 0%N.
 Definition known_F6b_bits (c : case) : N :=
   match c with
-  | CLegacy r remote secrets o_err o_auth o_query in_auth in_query in_body in_cookie in_other =>
-    if o_err || in_auth || in_query || in_other then 0%N
-    else if (negb in_body || form_carries r secrets) && (negb in_cookie || cookie_carries r secrets)
-    then ((if in_body then 4 else 0) + (if in_cookie then 8 else 0))%N
-    else 0%N
+  | CLegacy r remote dbt secrets o_err o_auth o_query wire => f6b_bits r secrets o_err wire
+  | CStack r dbt secrets sent => f6b_bits r secrets false (all_parts sent)
   | _ => 0%N
   end.
 
@@ -166,24 +233,68 @@ Fixpoint pairs_eqb (a b : list (string * string)) : bool :=
 Definition auth_value (a : auth_hdr) : string :=
   match a with ABearer t => "Bearer " ++ t | _ => "" end.
 
+(* the database of a case *)
+Fixpoint db_get (t : list (string * db_result)) (k : string) : db_result :=
+  match t with [] => DbNotFound | (k', v) :: r => if String.eqb k k' then v else db_get r k end.
+Definition db_of (d : option (list (string * db_result))) : string -> db_result :=
+  match d with None => fun _ => DbError | Some t => db_get t end.
+(* what saltAuthToken puts into the Authorization header when t is the first token it finds; None: it fails *)
+Definition fwd_token_k (hm : hmfun) (db : string -> db_result) (t dest : string) : option string :=
+  match salt_token_k hm t dest with
+  | Salted x => Some x
+  | ErrSalted => None
+  | ErrObsolete | ErrFormat =>
+    match db t with
+    | DbError => None
+    | DbNotFound => Some t
+    | DbFound user_uuid auth_uuid secret =>
+      if has_prefix dest user_uuid then Some t
+      else match salt_token_k hm ("v2/" ++ auth_uuid ++ "/" ++ secret) dest with Salted x => Some x | _ => None end
+    end
+  end.
+
+(* the Authorization header of a request the legacy stack sends to cluster dest: the incoming header when it
+   is no token, or what saltAuthToken makes for dest of a token the incoming request carries *)
+Definition auth_raw (a : auth_hdr) : option string :=
+  match a with ANone => Some "" | AOther v => Some v | _ => None end.
+Definition auth_explained_k (hm : hmfun) (db : string -> db_result) (r : lreq) (dest o_auth : string) : bool :=
+  opt_eqb (Some o_auth) (auth_raw (l_auth r)) ||
+  existsb (fun t => match fwd_token_k hm db t dest with Some x => String.eqb o_auth ("Bearer " ++ x) | None => false end) (load_tokens r).
+(* ... and of a request an rpc.Conn sends: the first token the provider returns *)
+Definition conn_auth_k (hm : hmfun) (lookup : string -> aca_result) (creds : list string) (dest o_auth : string) : bool :=
+  match provider_k hm lookup dest (Some creds) with
+  | Some (a :: _) => String.eqb o_auth ("Bearer " ++ a)
+  | Some [] => String.eqb o_auth "Bearer -"
+  | None => false
+  end.
+
 Definition model_k (hm : hmfun) (c : case) : bool :=
   match c with
   | CSalt token remote o => res_eqb o (salt_token_k hm token remote)
   | CProv remote creds local o => optl_eqb o (provider_k hm (tab_get local) remote creds)
   | CRemote token remote o => opt_eqb o (remote_client_k hm token remote)
-  | CLegacy r remote secrets o_err o_auth o_query in_auth in_query in_body in_cookie in_other =>
-    match legacy_k hm (fun _ => DbError) r remote with
+  | CLegacy r remote dbt secrets o_err o_auth o_query wire =>
+    match remote_request_k hm (db_of dbt) r remote with
     | LErr => o_err
     | LFwd r' =>
       negb o_err &&
       (* when no token was found the request is forwarded with its own Authorization header *)
       (match load_tokens r with [] => true | _ => String.eqb o_auth (auth_value (l_auth r')) end) &&
       pairs_eqb o_query (l_query r') &&
-      Bool.eqb in_body (form_carries r' secrets) &&
-      Bool.eqb in_cookie (cookie_carries r' secrets) &&
-      Bool.eqb in_query (carries secrets (map snd (l_query r'))) &&
-      Bool.eqb in_auth (carries secrets (match l_auth r' with ABearer t => [t] | ABasic _ p => [p] | AOther v => [v] | ANone => [] end))
+      Bool.eqb (found LBody secrets wire) (form_carries r' secrets) &&
+      Bool.eqb (found LCookie secrets wire) (cookie_carries r' secrets) &&
+      Bool.eqb (found LQuery secrets wire) (carries secrets (map snd (l_query r'))) &&
+      Bool.eqb (found LAuth secrets wire) (carries secrets (match l_auth r' with ABearer t => [t] | ABasic _ p => [p] | AOther v => [v] | ANone => [] end))
     end
+  | CStack r dbt secrets sent =>
+    forallb (fun q => auth_explained_k hm (db_of dbt) r (fst (fst q)) (snd (fst q))) sent
+  | CCrc local remotes target creds tab rt aca user o_sent o_auth o_rt wire =>
+    match crc_k hm (tab_get tab) (fun _ => None) local remotes target creds rt aca user with
+    | CrcSent a t => o_sent && String.eqb o_auth a && opt_eqb o_rt (Some t)
+    | _ => negb o_sent
+    end
+  | CConn creds tab secrets sent =>
+    forallb (fun q => conn_auth_k hm (tab_get tab) creds (fst (fst q)) (snd (fst q))) sent
   end.
 
 Definition spec_b (c : case) : bool := spec_k hmac_sha1_hex c.
@@ -209,14 +320,30 @@ Definition tok_needs (local : string -> aca_result) (remote token : string) : li
                end
   | _ => []
   end.
+Definition tok_needs_db (db : string -> db_result) (remote token : string) : list (string * string) :=
+  match classify token with
+  | TV2 _ secret => [(secret, remote)]
+  | TV2Salted _ => []
+  | _ => match db token with
+         | DbFound u a s => if has_prefix remote u then []
+                            else match classify ("v2/" ++ a ++ "/" ++ s) with TV2 _ s' => [(s', remote)] | _ => [] end
+         | _ => []
+         end
+  end.
 Definition needs (c : case) : list (string * string) :=
   match c with
   | CSalt token remote o => tok_needs (fun _ => AcaError) remote token
   | CProv remote creds local o =>
     match creds with Some ts => flat_map (tok_needs (tab_get local) remote) ts | None => [] end
   | CRemote token remote o => tok_needs (fun _ => AcaError) remote token
-  | CLegacy r remote secrets _ _ _ _ _ _ _ _ =>
-    match load_tokens r with t0 :: _ => tok_needs (fun _ => AcaError) remote t0 | [] => [] end
+  | CLegacy r remote dbt secrets _ _ _ _ =>
+    match load_tokens r with t0 :: _ => tok_needs_db (db_of dbt) remote t0 | [] => [] end
+  | CStack r dbt secrets sent =>
+    flat_map (fun q => flat_map (tok_needs_db (db_of dbt) (fst (fst q))) (load_tokens r)) sent
+  | CCrc local remotes target creds tab rt aca user _ _ _ _ =>
+    match cluster_of target with Some dest => flat_map (tok_needs (tab_get tab) dest) creds | None => [] end
+  | CConn creds tab secrets sent =>
+    flat_map (fun q => flat_map (tok_needs (tab_get tab) (fst (fst q))) creds) sent
   end.
 
 (* result code per case: 0 ok; +1 model/implementation mismatch; +2 observed behaviour violates the
